@@ -1,1 +1,109 @@
-From Qib Require Import TN.TNCheck.
+(** C08 - network surgery keeps the network consistent and means what it says.
+    Property theorems only (proofs: Qib.TN.TNWF, TNMerge, TNConsistent, TNProofs, TNCounts,
+    TNSem).  The model (Qib.TN.TNModel) is a hand port of symbolic_network.py WITH the proposed
+    repairs (merge: every deleted open axis once; is_consistent: exact leg count) and is tied
+    to /repo by the exact correspondence run of checks/C08.py on every run. *)
+From Qib Require Import TN.TNCounts Base.Inst.
+
+(** 1. the invariant implies the library's own check *)
+Theorem C08_invariant_implies_is_consistent : forall n, WF n -> is_consistent n = true.
+Proof. exact WF_is_consistent. Qed.
+Print Assumptions C08_invariant_implies_is_consistent.
+
+(** 2. every accepted operation preserves the invariant.  Guards (none is validated by the
+    code): the virtual tensor -1 is not renamed; the transposition is a permutation of all
+    open axes; the second operand is consistent and joined axes have equal dimensions.
+    The iteration order of the Python sets of shared ids (ordT, ordB) is arbitrary. *)
+Theorem C08_rename_tensor_keeps_invariant :
+  forall n a c n', WF n -> a <> VT -> rename_tensor n a c = Some n' -> WF n'.
+Proof. intros n a c n' W Ha H. exact (sstep_WF n (SRenT a c) n' W Ha H). Qed.
+Print Assumptions C08_rename_tensor_keeps_invariant.
+
+Theorem C08_rename_bond_keeps_invariant :
+  forall n a c n', WF n -> rename_bond n a c = Some n' -> WF n'.
+Proof. intros n a c n' W H. exact (sstep_WF n (SRenB a c) n' W I H). Qed.
+Print Assumptions C08_rename_bond_keeps_invariant.
+
+Theorem C08_transpose_keeps_invariant :
+  forall n axes n', WF n -> is_perm_of axes n -> transpose n axes = Some n' -> WF n'.
+Proof. intros n axes n' W P H. exact (sstep_WF n (STrans axes) n' W P H). Qed.
+Print Assumptions C08_transpose_keeps_invariant.
+
+Theorem C08_merge_keeps_invariant :
+  forall n o joins ordT ordB n', WF n -> WF o -> joins_dim_ok n o joins ->
+    merge n o joins ordT ordB = Some n' -> WF n'.
+Proof. exact merge_WF. Qed.
+Print Assumptions C08_merge_keeps_invariant.
+
+(** 3. from any consistent starting point, along any sequence (refused operations leave the
+    network unchanged), the network and every intermediate network pass is_consistent *)
+Theorem C08_any_sequence_stays_consistent :
+  forall ops n k, WF n -> guarded n ops ->
+    WF (fold_left apply_op ops n) /\ is_consistent (fold_left apply_op (firstn k ops) n) = true.
+Proof.
+  intros ops n k W G. split; [apply sequence_WF; assumption | apply sequence_consistent_prefix; assumption].
+Qed.
+Print Assumptions C08_any_sequence_stays_consistent.
+
+(** 4. counts: unchanged by renames and transpositions; after a merge the tensors add up, the
+    bonds add up minus the fused ones (at most one per join), and for joins that use every open
+    axis at most once the open axes add up minus two per join *)
+Theorem C08_counts_rename_transpose :
+  forall n n', WF n ->
+    (forall a c, a <> VT -> rename_tensor n a c = Some n' -> counts_eq n n') /\
+    (forall a c, rename_bond n a c = Some n' -> counts_eq n n') /\
+    (forall axes, is_perm_of axes n -> transpose n axes = Some n' -> counts_eq n n').
+Proof.
+  intros n n' W. unfold counts_eq. split; [|split].
+  - intros a c Ha H. destruct (rename_tensor_counts n a c n' W Ha H) as [A [B C]]. auto.
+  - intros a c H. destruct (rename_bond_counts n a c n' W H) as [A [B C]]. auto.
+  - intros axes P H. destruct (transpose_counts n axes n' W P H) as [A [B C]]. auto.
+Qed.
+Print Assumptions C08_counts_rename_transpose.
+
+Theorem C08_counts_merge :
+  forall n o joins ordT ordB n', WF n -> WF o -> joins_dim_ok n o joins ->
+    merge n o joins ordT ordB = Some n' ->
+    forall nt1 nt2 no1 no2, num_tensors n = Some nt1 -> num_tensors o = Some nt2 ->
+      num_open_axes n = Some no1 -> num_open_axes o = Some no2 ->
+    num_tensors n' = Some (nt1 + nt2)%nat /\
+    (num_bonds n' <= num_bonds n + num_bonds o <= num_bonds n' + length joins)%nat /\
+    (NoDup (map fst joins) -> NoDup (map snd joins) -> (forall j, In j joins -> (snd j < no2)%nat) ->
+     num_open_axes n' = Some (no1 + no2 - 2 * length joins)%nat).
+Proof. exact merge_counts. Qed.
+Print Assumptions C08_counts_merge.
+
+(** 5. fresh ids: max(keys)+1 and above never collides, whatever the signs of the ids; after
+    the relabelling inside merge the key sets of the two networks are disjoint *)
+Theorem C08_fresh_ids :
+  (forall l y, (zmax0 l + 1 <= y)%Z -> ~ In y l) /\
+  (forall n o ordT o1 tmp k, WF0 o ->
+     is_shared_order ordT (dkeys (tensors n)) (dkeys (tensors o)) = true ->
+     relabel_tensors o ordT (zmax0 (dkeys (tensors n) ++ dkeys (tensors o)) + 1) VT = Some (o1, tmp) ->
+     In k (dkeys (tensors o1)) -> ~ In k (dkeys (tensors n))) /\
+  (forall n o ordB o1 k, WF0 o ->
+     is_shared_order ordB (dkeys (bonds n)) (dkeys (bonds o)) = true ->
+     relabel_bonds o ordB (zmax0 (dkeys (bonds n) ++ dkeys (bonds o)) + 1) = Some o1 ->
+     In k (dkeys (bonds o1)) -> ~ In k (dkeys (bonds n))).
+Proof.
+  split; [exact zmax0_fresh|]. split; [exact relabel_tensors_disjoint | exact relabel_bonds_disjoint].
+Qed.
+Print Assumptions C08_fresh_ids.
+
+(** the decidable form of the invariant used by the correspondence run *)
+Theorem C08_wf_b_sound : forall n, wf_b n = true -> WF n.
+Proof. exact wf_b_WF. Qed.
+Print Assumptions C08_wf_b_sound.
+
+(** the hypotheses are satisfiable: a network with a hyper-bond, a multi-edge and a shared
+    open bond; merging it with itself over a reused axis is accepted and stays consistent *)
+Definition ex_net : net :=
+  mkN [(3%Z, mkT 3%Z [2; 3; 3]%nat [0; 1; 1]%Z 0%Z); (-1, mkT (-1) [2; 2; 3]%nat [0; 0; 5]%Z (-1))%Z;
+       ((-4)%Z, mkT (-4)%Z [3; 2]%nat [5; 0]%Z 1%Z)]
+      [(0, mkB 0 [-4; -1; -1; 3]); (1, mkB 1 [3; 3]); (5, mkB 5 [-4; -1])]%Z.
+Example C08_example :
+  wf_b ex_net = true /\
+  exists n', merge ex_net ex_net [(0, 0); (0, 1)]%nat [3; -1; -4]%Z [0; 1; 5]%Z = Some n' /\
+             wf_b n' = true /\ is_consistent n' = true /\
+             num_tensors n' = Some 4%nat /\ num_bonds n' = 5%nat /\ num_open_axes n' = Some 3%nat.
+Proof. split; [vm_compute; reflexivity|]. eexists. split; [vm_compute; reflexivity|]. vm_compute. repeat split. Qed.
